@@ -2,17 +2,17 @@
    from the current odak sources on this run) are the reference model at the traced shapes, for all reals;
    the property clauses are then stated on the traced definitions themselves. *)
 From Coq Require Import Reals Lra List.
-From OdakV Require Import Base.RealAux C17.Model C17.Lemmas.
+From OdakV Require Import Base.RealAux C17.Model C17.Lemmas C17.TieTac.
 From Run Require Import GenC17.
 Import ListNotations.
 Open Scope R_scope.
 
 Lemma w_mean_model a00 a01 a10 a11 b00 b01 b10 b11 :
   w_mean a00 a01 a10 a11 b00 b01 b10 b11 = wmse_mean [(a00, b00); (a01, b01); (a10, b10); (a11, b11)].
-Proof. unfold w_mean, wmse_mean, rmean, wterm. simpl. field. Qed.
+Proof. unfold w_mean, wmse_mean, rmean, wterm. simpl. sem. Qed.
 Lemma w_sum_model a00 a01 a10 a11 b00 b01 b10 b11 :
   w_sum a00 a01 a10 a11 b00 b01 b10 b11 = wmse_sum [(a00, b00); (a01, b01); (a10, b10); (a11, b11)].
-Proof. unfold w_sum, wmse_sum, wterm. simpl. ring. Qed.
+Proof. unfold w_sum, wmse_sum, wterm. simpl. sem. Qed.
 
 Theorem traced_wmse_nonneg a00 a01 a10 a11 b00 b01 b10 b11 :
   0 <= w_mean a00 a01 a10 a11 b00 b01 b10 b11 /\ 0 <= w_sum a00 a01 a10 a11 b00 b01 b10 b11.
@@ -31,13 +31,13 @@ Qed.
 Theorem traced_wmse_closed a00 a01 a10 a11 b00 b01 b10 b11 :
   w_mean a00 a01 a10 a11 b00 b01 b10 b11 =
   ((2 - 2 * cos (a00 - b00)) + (2 - 2 * cos (a01 - b01)) + (2 - 2 * cos (a10 - b10)) + (2 - 2 * cos (a11 - b11))) / 4.
-Proof. rewrite w_mean_model, wmse_mean_closed. unfold rmean. simpl. field. Qed.
+Proof. rewrite w_mean_model, wmse_mean_closed. unfold rmean. simpl. sem. Qed.
 
 Lemma tv2d_model f00 f01 f02 f10 f11 f12 : tv2d f00 f01 f02 f10 f11 f12 = tv [[[f00; f01; f02]; [f10; f11; f12]]].
-Proof. unfold tv2d, tv. simpl. field. Qed.
+Proof. unfold tv2d, tv. simpl. sem. Qed.
 Lemma tv3d_model f000 f001 f010 f011 f100 f101 f110 f111 :
   tv3d f000 f001 f010 f011 f100 f101 f110 f111 = tv [[[f000; f001]; [f010; f011]]; [[f100; f101]; [f110; f111]]].
-Proof. unfold tv3d, tv. simpl. field. Qed.
+Proof. unfold tv3d, tv. simpl. sem. Qed.
 Theorem traced_tv_nonneg f00 f01 f02 f10 f11 f12 g000 g001 g010 g011 g100 g101 g110 g111 :
   0 <= tv2d f00 f01 f02 f10 f11 f12 /\ 0 <= tv3d g000 g001 g010 g011 g100 g101 g110 g111.
 Proof. rewrite tv2d_model, tv3d_model. split; apply tv_nonneg. Qed.
